@@ -18,6 +18,8 @@ from .common import world, short
 from .c11 import new_interp, subterms
 
 
+CONFIG_SENSITIVE = True      # thorough tier: analysed under all four build configurations
+
 def lin_terms(l):
     out = []
     for k in l.co:
@@ -35,7 +37,10 @@ def run(chk):
 
     # ---------------- R03.1
     q = "ecdsa:Private_key.sign"
+    from sa.config import default_policy
     it = new_interp(W)
+    # the modular inverse is summarised (one uninterpreted term in every build configuration)
+    it.policy = lambda f_: "summary" if f_.qname == "numbertheory:inverse_mod" else default_policy(f_)
     it.watch_returns[q] = []
     selfv = VSym(("param", "self"), cls=frozenset(["Private_key"]))
     k = Lin.sym(("param", "random_k"))
@@ -85,7 +90,7 @@ def run(chk):
         ts = fs.lin.single_sym()
         subs = lin_terms(fs.lin)
         good_s = bool(ts) and ts[0] == "mod" and ts[2] == n.key()
-        good_s &= any(x[0] == "powmod" and x[1] == k.key() and x[2] == Lin.const(-1).key() and x[3] == n.key() for x in subs)
+        good_s &= any(x[0] == "call" and x[2] == "inverse_mod" and len(x) >= 5 and x[3] == ("param", "random_k") and x[4] == n.single_sym() for x in subs)
         good_s &= ("param", "hash") in subs and ("attr", ("param", "self"), "secret_multiplier") in subs and (t in subs if t else False)
         ok_s &= good_s
     chk.ob("R03.1", "sign: returned r, s in [1, n-1] (zero checks dominate the return) [%d state(s)]" % len(states), ok_rng, loc=q, key="C03|R03.1|range", detail="a Signature with r or s outside [1, n-1] (e.g. zero) can be returned")
